@@ -97,6 +97,16 @@ Fixpoint norm_any (j : json) : json :=
   | _ => j
   end.
 
+(* the same payload after a gob transport: an empty array inside an interface{} value arrives as a nil slice (null) *)
+Fixpoint gob_any (j : json) : json :=
+  match j with
+  | JArr [] => JNull
+  | JArr l => JArr (map gob_any l)
+  | JObj m => JObj ((fix go (m : list (string * json)) : list (string * json) :=
+                       match m with [] => [] | (k, v) :: r => (k, gob_any v) :: go r end) m)
+  | _ => j
+  end.
+
 (* ---------- emptiness (omitempty) of an encoded value, by the Go kind of the field ---------- *)
 Definition is_empty (E : env) (t : fty) (v : json) : bool :=
   match t with
@@ -153,7 +163,7 @@ Definition emit_fields (E : env) (fs : list field) (acc : list (string * json)) 
   flat_map (fun f =>
     if f_skip f then [] else
     match assoc (f_json f) acc with
-    | Some v => let empty := match f_ty f with TPtr _ => false | t => is_empty E t v end in
+    | Some v => let empty := match f_ty f with TPtr _ | TAny => false | t => is_empty E t v end in
                 if f_omit f && empty then [] else [(f_json f, v)]
     | None => let v := zero_of E (f_ty f) in
               if f_omit f && is_empty E (f_ty f) v then [] else [(f_json f, v)]
@@ -239,6 +249,16 @@ Definition lift_list (l : list res) : option (list json) + bool :=  (* inr true 
 
 Section Norm.
 Variable E : env.
+Variable G : bool.    (* true: the value additionally travels through encoding/gob between decoding and encoding (C14) *)
+Definition any_of (j : json) : json := if G then gob_any (norm_any j) else norm_any j.
+(* gob does not transmit zero values: a pointer to a zero number arrives as a nil pointer *)
+Definition gext (m : list (string * json)) : list (string * json) :=
+  map (fun kv => (fst kv, if G then gob_any (snd kv) else snd kv)) (ext_members m).
+Definition gob_drops (t : fty) (v : json) : bool :=
+  G && match t with
+       | TPtr TF64 | TPtr TInt => match v with JNum m _ => Z.eqb m 0 | _ => false end
+       | _ => false
+       end.
 
 Definition parts_dec (k : string) : list string :=
   if String.eqb k "Items" then ["CommonValidations"; "Refable"; "SimpleSchema"; "VendorExtensible"]
@@ -263,7 +283,7 @@ Definition emit_part (k : string) (dec : list string) (acc m : list (string * js
     (* marshalled but never filled: its zero value *)
     if String.eqb p "VendorExtensible" || String.eqb p "Refable" || String.eqb p "Ref" then inl (Some [])
     else inl (Some (emit_fields E (fields_of E p) []))
-  else if String.eqb p "VendorExtensible" then inl (Some (ext_members m))
+  else if String.eqb p "VendorExtensible" then inl (Some (gext m))
   else if String.eqb p "Refable" || String.eqb p "Ref" then
     match ref_member m with
     | RefNone => inl (Some [])
@@ -326,7 +346,7 @@ Fixpoint norm (j : json) (t : fty) {struct j} : res :=
   | TBool => match j with JBool _ => ROk j | _ => RErr end
   | TF64 => match j with JNum _ _ => ROk j | _ => RErr end
   | TInt => match j with JNum m e => if is_int_literal m e then ROk j else RErr | _ => RErr end
-  | TAny => ROk (norm_any j)
+  | TAny => ROk (any_of j)
   | TSlice t' =>
       match j with
       | JArr l =>
@@ -382,7 +402,7 @@ Fixpoint norm (j : json) (t : fty) {struct j} : res :=
         | JArr l =>
             match lift_list ((fix go (l : list json) : list res :=
                                 match l with [] => [] | x :: r => norm x (TNamed "Schema") :: go r end) l) with
-            | inl (Some vs) => ROk (JArr vs)   (* an empty tuple stays an empty tuple (repaired, finding F4) *)
+            | inl (Some vs) => (match vs with [] => if G then ROk JNull else ROk (JArr []) | _ => ROk (JArr vs) end)   (* an empty tuple stays an empty tuple (F4); gob turns it into a nil slice *)
             | inl None => RErr
             | inr true => RUnsup
             | inr false => RErr
@@ -415,9 +435,9 @@ Fixpoint norm (j : json) (t : fty) {struct j} : res :=
         | _ => RErr
         end
       else if String.eqb k "VendorExtensible" then
-        match j with JObj m => ROk (JObj (ext_members m)) | _ => RErr end
+        match j with JObj m => ROk (JObj (gext m)) | _ => RErr end
       else if String.eqb k "Extensions" then
-        match j with JObj m => ROk (norm_any j) | _ => RErr end
+        match j with JObj m => ROk (any_of j) | _ => RErr end
       else if String.eqb k "SchemaProperties" then
         match j with
         | JObj m =>
@@ -441,8 +461,8 @@ Fixpoint norm (j : json) (t : fty) {struct j} : res :=
                    let known := map f_json (filter (fun f => negb (f_skip f)) fs) in
                    let rest := filter (fun kv => negb (mem_str (fst kv) known) && negb (String.eqb (fst kv) "$ref")
                                                   && negb (String.eqb (fst kv) "$schema")) m in
-                   let exts := sort_members (flat_map (fun kv => if has_x_prefix_ci (fst kv) then [(fst kv, norm_any (snd kv))] else []) rest) in
-                   let extra := sort_members (flat_map (fun kv => if has_x_prefix_ci (fst kv) then [] else [(fst kv, norm_any (snd kv))]) rest) in
+                   let exts := sort_members (flat_map (fun kv => if has_x_prefix_ci (fst kv) then [(fst kv, any_of (snd kv))] else []) rest) in
+                   let extra := sort_members (flat_map (fun kv => if has_x_prefix_ci (fst kv) then [] else [(fst kv, any_of (snd kv))]) rest) in
                    let refm := match ref_member m with RefStr s => Some [("$ref", JStr s)] | RefUnsup => None | _ => Some [] end in
                    let schm := match assoc "$schema" (rev m) with
                                | Some (JStr s) => if String.eqb s "" then Some [] else
@@ -470,7 +490,8 @@ Fixpoint norm (j : json) (t : fty) {struct j} : res :=
                                   end
                            end
                        | _ => match norm v (f_ty f) with
-                              | ROk v' => go r (upd (f_json f) v' acc)
+                              | ROk v' => if gob_drops (f_ty f) v' then go r (remove_key (f_json f) acc)
+                                          else go r (upd (f_json f) v' acc)
                               | RErr => RErr | RUnsup => RUnsup
                               end
                        end
@@ -483,7 +504,7 @@ Fixpoint norm (j : json) (t : fty) {struct j} : res :=
         | JObj m =>
             (fix go (mm : list (string * json)) (acc : list (string * json)) : res :=
                match mm with
-               | [] => ROk (JObj (sort_members (rev acc) ++ ext_members m))
+               | [] => ROk (JObj (sort_members (rev acc) ++ gext m))
                | (n, v) :: r =>
                    if String.eqb n "default" then
                      match norm v (TNamed "Response") with
@@ -503,7 +524,7 @@ Fixpoint norm (j : json) (t : fty) {struct j} : res :=
         | JObj m =>
             (fix go (mm : list (string * json)) (acc : list (string * json)) : res :=
                match mm with
-               | [] => ROk (JObj (ext_members m ++ sort_members (rev acc)))
+               | [] => ROk (JObj (gext m ++ sort_members (rev acc)))
                | (n, v) :: r =>
                    if has_slash_prefix n then
                      match norm v (TNamed "PathItem") with
@@ -536,7 +557,8 @@ Fixpoint norm (j : json) (t : fty) {struct j} : res :=
                                   end
                            end
                        | _ => match norm v (f_ty f) with
-                              | ROk v' => go r (upd (f_json f) v' acc)
+                              | ROk v' => if gob_drops (f_ty f) v' then go r (remove_key (f_json f) acc)
+                                          else go r (upd (f_json f) v' acc)
                               | RErr => RErr | RUnsup => RUnsup
                               end
                        end
